@@ -26,11 +26,11 @@ from ..terms import Unsupported, is_sym
 from ..values import Obj, Arr, CArr, LibFunc, Ref, ExcVal, materialise, Opaque
 from ..lib import TypeTag, REG
 
-NANV = lib.REG["numpy.nan"]     # the literal np.nan (an opaque marker)
+NANV = T.NAN     # the literal np.nan
 
 
 def _is_nanlit(d):
-    return isinstance(d, Opaque) and d.what == "nan"
+    return isinstance(d, T.XR) and d.nan is True
 
 
 def is_xa(o):
@@ -107,13 +107,15 @@ def xr_apply(st, fn, operands, sort="real", nanfn=None, bool_result=False):
             return o.get(sub), False
         if kind == "nanlit":
             return Fraction(0), True
+        if isinstance(o, T.XR):
+            return o.v, o.nan
         return o, False
 
     def val(idx):
         vs = [pick(k, o, idx)[0] for k, o in ops]
         return fn(*vs)
 
-    any_nan = any((k == "xa" and o.fields["nan"] is not None) or k == "nanlit" for k, o in ops)
+    any_nan = any((k == "xa" and o.fields["nan"] is not None) or k == "nanlit" or isinstance(o, T.XR) for k, o in ops)
 
     def nan(idx):
         ns = [pick(k, o, idx)[1] for k, o in ops]
